@@ -110,3 +110,79 @@ def l2_combine(tree, comb, lens, dup, u):
     if sorted(set(bodies)) != sorted(set(exp_jobs)) or len(bodies) != len(set(exp_jobs)):
         return "bodies %r, reference jobs %r" % (bodies, exp_jobs)
     return None
+
+
+def l2_equiv(t1, t2, lens, dup, u, kw_only=False):
+    """C05: two spellings run the same jobs with the same inputs in the same order"""
+    g1, e1, b1, vals = run_split(t1, lens, dup, u)
+    if kw_only:
+        E.reset()
+        R.clear()
+        d = E.scratch()
+        g2 = e2 = None
+        try:
+            out = Rec(u=u).split(**{f: list(v) for f, v in vals.items()})(cache_root=d, worker="debug")
+            g2 = out.out
+        except Exception as e:
+            e2 = e
+        finally:
+            E.cleanup(d)
+        b2 = [ev[1:] for ev in R.LOG if ev[0] == "Rec"]
+    else:
+        g2, e2, b2, _ = run_split(t2, lens, dup, u)
+    T.reach()
+    if (g1 is None) != (g2 is None):
+        return "spelling %r -> %r, spelling %r -> %r" % (t1, e1 or "ok", t2, e2 or "ok")
+    if g1 is None:
+        return None
+    if [tuple(x) for x in g1] != [tuple(x) for x in g2]:
+        return "spelling %r gives %r, spelling %r gives %r" % (t1, list(g1), t2, list(g2))
+    if b1 != b2:
+        return "job inputs differ: %r vs %r" % (b1, b2)
+    return None
+
+
+ILLFORMED = ["dup_field", "missing_value", "extra_value", "combiner_not_split", "combine_without_split",
+             "ndim_unsplit_field", "split_twice", "combiner_unknown_field", "dup_field_nested"]
+
+
+def l2_illformed(kind, na, nb):
+    """C05: ill-formed requests raise before any job body runs; returns error text or None"""
+    E.reset()
+    R.clear()
+    a = [BASE["a"] + i for i in range(na)]
+    b = [BASE["b"] + i for i in range(nb)]
+    d = E.scratch()
+    raised = None
+    try:
+        k = ILLFORMED[kind]
+        if k == "dup_field":
+            t = Rec().split(["a", "a"], a=a)
+        elif k == "dup_field_nested":
+            t = Rec().split(["a", ("b", "a")], a=a, b=b)
+        elif k == "missing_value":
+            t = Rec().split(["a", "b"], a=a)
+        elif k == "extra_value":
+            t = Rec().split("a", a=a, b=b)
+        elif k == "combiner_not_split":
+            t = Rec(b=1).split("a", a=a).combine("b")
+        elif k == "combine_without_split":
+            t = Rec(a=1).combine("a")
+        elif k == "ndim_unsplit_field":
+            t = Rec(b=1).split("a", a=a, container_ndim={"b": 2})
+        elif k == "split_twice":
+            t = Rec().split("a", a=a).split("b", b=b)
+        elif k == "combiner_unknown_field":
+            t = Rec().split("a", a=a).combine("zz")
+        out = t(cache_root=d, worker="debug")
+    except Exception as e:
+        raised = e
+    finally:
+        E.cleanup(d)
+    T.reach()
+    bodies = [ev for ev in R.LOG if ev[0] == "Rec"]
+    if raised is None:
+        return "%s (a=%r, b=%r) was accepted: %r" % (ILLFORMED[kind], a, b, out)
+    if bodies:
+        return "%s rejected only after %d job(s) ran: %r" % (ILLFORMED[kind], len(bodies), raised)
+    return None
